@@ -783,11 +783,8 @@ func (c *Ctx) ruleFailedKept(rr *RuleRep, rr18 *RuleRep) {
 				}
 			})
 			// onError(err) on every path from the failure edge
-			isOnErr := func(in ssa.Instruction) bool {
-				k, ok := in.(*ssa.Call)
-				return ok && c.StaticCalleeOf(&k.Call) == a.OnError && len(k.Call.Args) == 2 && c.errOrigin(k.Call.Args[1]) == ssa.Value(call)
-			}
-			if w, ok := c.mustFollowFrom(g, first, isOnErr, nil); ok {
+			isOnErr := func(in ssa.Instruction) bool { return c.reportsError(a, in, ssa.Value(call)) }
+			if w, ok := c.mustFollowFrom(g, first, isOnErr, c.noCallbackEdges(a, g)); ok {
 				rr18.OK(key+"/report", first.Pos(), "failure is reported through OnError on every path")
 			} else {
 				rr18.Bad(key+"/report", w.Pos(), "a failed (e.g. timed-out) %s is not reported through OnError on every path", api.Base)
@@ -818,7 +815,7 @@ type keepSum struct {
 }
 
 func (c *Ctx) keepSummary(a *retryAnchors, g *ssa.Function) *keepSum {
-	if g.Blocks == nil || g == a.PushTask || g == a.OnError {
+	if g.Blocks == nil || g == a.PushTask || (a.OnError != nil && g == a.OnError) {
 		return nil
 	}
 	for idx, p := range g.Params {
